@@ -36,7 +36,7 @@ CHECKS["C02"] = {
     "level": "proof",
     "lean_targets": ["Yae.Props.C02", "Yae.Props.C11"],
     "streams": [
-        EVAL(4000, 60000, kinds=["run", "check"], projections=["class", "accept"],
+        EVAL(4000, 60000, kinds=["run"], projections=["class"],
              oracles=["internal-fault", "compile-internal-fault", "check-internal-fault", "process-crash"]),
         VM(1500, 20000, kinds=["vmrun", "verify"], projections=["class", "verify"], oracles=["compile-internal-fault", "process-crash"]),
     ],
@@ -48,7 +48,7 @@ CHECKS["C03"] = {
     "level": "proof",
     "lean_targets": ["Yae.Props.C03", "Yae.Props.C02"],
     "streams": [
-        EVAL(4000, 60000, kinds=["run"], oracles=["backend-divergence*", "callthread-exec-limit", "vm-dynamic-lazy"]),
+        EVAL(4000, 60000, oracles_only=True, oracles=["backend-divergence*", "callthread-exec-limit", "vm-dynamic-lazy"]),
         VM(2500, 30000, kinds=["vmrun", "vmcode"]),
     ],
     "explanation": "Compiler-correctness simulation over the model: for every well-annotated tree whose reference evaluation is not stuck (C01/C02), running the compiled code on the model machine equals the reference evaluator — same value or failure and the same log of host calls and prints (C03.vm_correct, vm_same_events); the compiler refuses well-annotated trees only for an encoding overflow (refuse_overflow). The reference evaluator is tied to the closure compiler and the AST interpreter, the model compiler and machine to vm.Compile and both dispatch loops by the eval and vm streams (bytes, constant pool, outcome, event order), and the oracle compares the four back ends pairwise on every accepted program.",
@@ -69,13 +69,13 @@ CHECKS["C04"] = {
 
 CHECKS["C05"] = {
     "level": "proof",
-    "lean_targets": ["Yae.Props.C05", "Yae.Props.C17"],
+    "lean_targets": ["Yae.Props.C05", "Yae.Props.C05b", "Yae.Props.C17"],
     "streams": [
         EVAL(5000, 80000, kinds=["check"], projections=["accept", "type", "annot"], model_is_oracle=True, oracles=["check-internal-fault", "mono-key-field-order", "poly-first-match-bot"]),
         {"name": "types", "quick_n": 8000, "thorough_n": 100000, "kinds": ["infer", "unify"], "oracles": ["match-*"]},
     ],
-    "explanation": "A declarative typing relation Typed (Spec/Typing.lean) states the rules; proved: check accepts only typed programs with exactly the relation's type (sound_partial), accepts every typed program for every value of the type-variable counter (complete_partial, counter_irrelevant_partial), the relation is functional (unique), the annotated tree is the input plus attachments (erase); the checker's first-match rule vs the natural rule is characterised (overload_rules_coincide) with the kernel-checked D22 witness of their difference. Tie: check requests of the eval stream (accept/reject, inferred type, annotated tree) on type-directed programs and their type-breaking mutants with random overload sets.",
-    "assumptions": ["PolyOK (the checker's inferFun agrees with the specification's matcher on every registered polymorphic signature) is a hypothesis of the C05 theorems, not yet derived; C17.match_sound/complete cover matching against ground types"],
+    "explanation": "A declarative typing relation Typed (Spec/Typing.lean) states the rules; proved: check accepts only typed programs with exactly the relation's type (C05.sound), accepts every typed program for every value of the type-variable counter (complete, counter_irrelevant, accepts_iff_typed, never_fuel), the relation is functional (unique), the annotated tree is the input plus attachments (erase); the checker's first-match rule vs the natural rule is characterised (overload_rules_coincide) with the kernel-checked D22 witness of their difference. Tie: check requests of the eval stream (accept/reject, inferred type, annotated tree) on type-directed programs and their type-breaking mutants with random overload sets.",
+    "assumptions": ["the environment satisfies SigEnv: variable types are ground and well formed, registered signatures satisfy the decidable condition sigOK (true of all 56 built-ins by decide: C05.builtins_sigOK); under it inferFun equals the specification's matcher and check never runs out of fuel (C05.sigOK_inferFun, never_fuel), so sound / complete / accepts_iff_typed hold without further hypotheses"],
 }
 
 CHECKS["C06"] = {
@@ -135,12 +135,12 @@ CHECKS["C10"] = {
 
 CHECKS["C11"] = {
     "level": "proof",
-    "lean_targets": ["Yae.Props.C11", "Yae.Props.C03"],
+    "lean_targets": ["Yae.Props.C11", "Yae.Props.C11b", "Yae.Props.C03"],
     "streams": [
         VM(4000, 40000, kinds=["verify", "vmcode"], oracles=["compile-internal-fault"]),
     ],
-    "explanation": "An executable verifier (Model/VmVerify.lean: complete decoding into known instructions, in-range constants of the right kind, forward jumps to instruction boundaries, a consistent abstract stack with slot kinds, exactly one value at the final return, thunk bodies against the pool prefix they were compiled with) is PROVED sound for the model machine: verified code never underflows, never meets an unknown opcode / wrong constant kind / thunk-value confusion and stops within the code size (verify_sound, verify_sound_thunk, runVm_sound, verify_decodes, wellFormed_explicit). It is run on the bytes the Go compiler actually emitted for every generated program (translation validation, incl. >255 / >65535-member literals and long conditionals), and the model compiler is tied byte for byte to vm.Compile.",
-    "assumptions": ["compile_verified (every output of the model compiler verifies) is not proved as a theorem; it is checked per program on the Go compiler's real output"],
+    "explanation": "An executable verifier (Model/VmVerify.lean: complete decoding into known instructions, in-range constants of the right kind, forward jumps to instruction boundaries, a consistent abstract stack with slot kinds, exactly one value at the final return, thunk bodies against the pool prefix they were compiled with) is PROVED sound for the model machine: verified code never underflows, never meets an unknown opcode / wrong constant kind / thunk-value confusion and stops within the code size (verify_sound, verify_sound_thunk, runVm_sound, verify_decodes, wellFormed_explicit), and every output of the model compiler on a checked tree verifies and runs safely (compile_verified_checked, compiled_runs_safely). It is also run on the bytes the Go compiler actually emitted for every generated program (translation validation, incl. >255 / >65535-member literals and long conditionals), and the model compiler is tied byte for byte to vm.Compile.",
+    "assumptions": ["compile_verified is proved for well-annotated trees whose list/map literals carry list/map types (C11.compile_verified_partial), which the checker's output always satisfies (compile_verified_checked); the kernel-checked counterexamples not_verified_* show the hypothesis is needed"],
 }
 
 CHECKS["C12"] = {
@@ -194,7 +194,7 @@ CHECKS["C16"] = {
     "level": "proof",
     "lean_targets": ["Yae.Props.C16", "Yae.Props.C02"],
     "streams": [
-        EVAL(4000, 60000, kinds=["check", "run"], projections=["accept"]),
+        EVAL(4000, 60000, kinds=["check", "run"], projections=["accept", "class"], input_regex=r"\b(mb|ms|om)\b|maybe|Nothing|Just"),
         {"name": "conv", "quick_n": 1500, "thorough_n": 20000, "oracles_only": True, "oracles": ["conv-wf"]},
     ],
     "explanation": "Proved: unification of a pattern with an optional type succeeds only for a variable, an optional pattern (or top, which no registered signature contains) (no_coercion, builtins_no_top); in every accepted call an optional argument meets a type-variable or optional parameter (accepted_call_no_coercion); by decide over the regenerated built-in table the only optional parameter is get's and the bare-variable positions are listed (sole_eliminator); member and subscript on an optional are rejected (member_rejected, subscript_rejected); get(optional, d) yields payload or default (get_maybe_spec); accepted programs over environments with absent values never fail because of them (C02.progress with WF admitting nothing). Tie: eval stream with optional-typed variables present/absent and nested, conv stream with nil pointers/slices/maps.",
